@@ -74,7 +74,12 @@ def build(cfg):
         e = EXPSETS[ei]
         # atom-index labels: none / all equal (bases from separate make_contractions calls joined) / alternating
         ic = [None, 0, i % 2][(cfg["n"] + cfg["set"] + len(cfg["types"][0])) % 3]
-        sh = RefShell(l, pos, e, al.coeffs(len(e), M, rot=i), cfg["types"][i], icenter=ic)
+        co = np.array(al.coeffs(len(e), M, rot=i))
+        if M > 1 and len(e) > 1:
+            # generalized contractions as in correlation-consistent sets: the most diffuse primitive does not
+            # contribute to the first column
+            co[int(np.argmin(e)), 0] = 0.0
+        sh = RefShell(l, pos, e, co, cfg["types"][i], icenter=ic)
         if i > 0:
             prev = shells[-1]
             if f == "zero":
